@@ -6,6 +6,7 @@ import (
 	"runtime"
 	"strings"
 	"sync"
+	"sync/atomic"
 	"time"
 
 	leanhelix "github.com/orbs-network/lean-helix-go"
@@ -320,13 +321,19 @@ func shutdownScenarios(c *Ctx) {
 			cfg, bu, _, _ := simpleConfig(w, memberId(me))
 			linger := time.Duration(20+r.Intn(150)) * time.Millisecond
 			inSpi := make(chan struct{}, 16)
+			release := make(chan struct{})
+			var sawDone int32
 			bu.Gate = func(ctx context.Context, k string) {
 				select {
 				case inSpi <- struct{}{}:
 				default:
 				}
-				<-ctx.Done()
-				time.Sleep(linger) // a consumer that needs a while to notice the cancellation
+				select {
+				case <-ctx.Done():
+					atomic.StoreInt32(&sawDone, 1)
+					time.Sleep(linger) // a consumer that needs a while to notice the cancellation
+				case <-release: // the scenario is over and the context was never cancelled
+				}
 			}
 			fm := &failingMembership{FakeMembership: &FakeMembership{w: w, me: memberId(me)}}
 			if strings.HasPrefix(kind, "membership") {
@@ -397,6 +404,17 @@ func shutdownScenarios(c *Ctx) {
 			}
 			t0 := time.Now()
 			cancel()
+			if kind == "request" || kind == "validate" {
+				// C15: the context the blocked SPI call waits on is cancelled by the shutdown
+				ok := false
+				for k := 0; k < 200 && !ok; k++ {
+					time.Sleep(5 * time.Millisecond)
+					ok = atomic.LoadInt32(&sawDone) == 1
+				}
+				if !ok {
+					c.Violation("C15", "spi-context-not-cancelled-on-shutdown", fmt.Sprintf("the context of the %s call the worker is blocked in is still live one second after the context given to Run was cancelled", kind), "shutdown-scenario "+kind)
+				}
+			}
 			wctx, wc := context.WithTimeout(context.Background(), 3*time.Second)
 			ml.WaitUntilShutdown(wctx)
 			timedOut := wctx.Err() != nil
@@ -428,6 +446,7 @@ func shutdownScenarios(c *Ctx) {
 			if live2, which2 := libraryGoroutines(); live2 > 0 && !timedOut {
 				c.Violation("C16", "goroutine-leak", fmt.Sprintf("cancelled while the worker was in %s: %d library goroutines still exist %v after shutdown (%s)", kind, live2, linger+60*time.Millisecond, which2), "shutdown-scenario "+kind)
 			}
+			close(release)
 			if timedOut {
 				// do not let a stuck node poison the following scenarios' goroutine counts
 				time.Sleep(50 * time.Millisecond)
